@@ -11,8 +11,8 @@ pub fn check(tier: Tier) -> Check {
     let mut parts = vec![];
     for k in 0..=tier.pick(1, 2) {
         let d = match (tier, k) {
-            (Tier::Quick, 0) => 6,
-            (Tier::Quick, _) => 5,
+            (Tier::Quick, 0) => 5,
+            (Tier::Quick, _) => 4,
             (Tier::Thorough, 0) => 8,
             (Tier::Thorough, 1) => 7,
             (Tier::Thorough, _) => 6,
@@ -24,7 +24,7 @@ pub fn check(tier: Tier) -> Check {
         also_rel: false,
         property: "C07",
         level: "model_checking",
-        rule: "all event sequences over <=2 subscribe calls, SUBACKs, stream() calls, inbound PUBLISH (QoS 0/1/2 x subscription identifier absent / first / second / unknown / both), stream drops, an unsubscribe, with lagging (held) and spuriously polled streams as deviations; plus a sweep over message field combinations; non-trivial = at least one message was dispatched to a stream".into(),
+        rule: "all event sequences over <=2 subscribe calls, SUBACKs, stream() calls, inbound PUBLISH (QoS 0/1/2 x subscription identifier absent / first / second / unknown / both / repeated adjacently and non-adjacently / mixed with an unknown one), stream drops, an unsubscribe, with lagging (held) and spuriously polled streams as deviations; plus a sweep over message field combinations; non-trivial = at least one message was dispatched to a stream".into(),
         assumptions: vec![
             "acknowledgements written by the client are not compared here (C08)".into(),
             "QoS 2 identifiers are not repeated here (C09)".into(),
@@ -159,8 +159,12 @@ pub fn scenario(name: &str, params: &Value) -> Scenario {
                 for id in &ids {
                     variants.push(vec![*id]);
                 }
+                // repeated identifiers (one SUBSCRIBE with overlapping filters shares its identifier)
+                variants.push(vec![ids[0], ids[0]]);
                 if ids.len() == 2 {
                     variants.push(vec![ids[0], ids[1]]);
+                    variants.push(vec![ids[1], ids[0], ids[1]]);
+                    variants.push(vec![ids[0], 7, ids[1], ids[0]]);
                 }
                 for v in variants {
                     for q in 0..3u8 {
